@@ -7,6 +7,7 @@ For T >= 1:   result >= |q(1)|, result >= |q(T)|,
 The last clause is proved through a lemma chain (DESIGN C17): vertex form 2q(x) = jerk*(D + (x - t*)^2), a reduced
 claim about the parabola D + (x-t*)^2 on integer ticks, and a scaling lemma.
 """
+import os
 import z3
 
 from pyvc.harness import run, no_raise, oblige_at
@@ -74,19 +75,35 @@ def lemmas(sess):
     # scaling: |a| <= |b| + 2  =>  |j a| <= |j b| + 2 |j|
     j, a, b = z3.Reals('j a b')
     sess.add('lemma/scaling', 'spec', 'lemma', [zabs(a) <= zabs(b) + 2], zabs(j * a) <= zabs(j * b) + 2 * zabs(j))
-    # reduced claim on the parabola A(x) = D + (x - t)^2 over integer ticks
+    # reduced claim on the parabola A(x) = D + (x - t)^2 over integer ticks 1..T, c any integer within 1 of the vertex t (ceil or floor):
+    #   L_in :  |A(k)| <= max(|A(1)|, |A(T)|, |A(c)|) + 2                      (unconditionally)
+    #   L_out:  |A(k)| <= max(|A(1)|, |A(T)|) + 2   when  t <= 5/2  or  t >= T - 3/2   (vertex within 3/2 of an end tick: the weakest
+    #           such condition; the bound 2 is attained at t = 5/2, k = 2 or 3, and at t = T - 3/2, k = T - 1 or T - 2)
+    # Each is split into cases that z3 decides instantly and reproducibly (sign of A(k); which end; the distance of k from that end);
+    # un-split, the same query took anything from 0.2 s to > 300 s from run to run.
     D, t = z3.Reals('D t')
     k, T, c = z3.Ints('k T c')
     A = lambda x: D + (z3.ToReal(x) - t) * (z3.ToReal(x) - t)
-    hyp = [k >= 1, k <= T, T >= 2, z3.ToReal(c) + 1 > t, z3.ToReal(c) - 1 < t]     # any integer within 1 of the vertex (ceil or floor)
+    rng = [k >= 1, k <= T, T >= 2]
+    cdef = [z3.ToReal(c) + 1 > t, z3.ToReal(c) - 1 < t]
+    left, right = t <= z3.RealVal('5/2'), t >= z3.ToReal(T) - z3.RealVal('3/2')
+    claim_c = zabs(A(k)) <= zmax(zabs(A(z3.IntVal(1))), zabs(A(T)), zabs(A(c))) + 2
+    claim_noc = zabs(A(k)) <= zmax(zabs(A(z3.IntVal(1))), zabs(A(T))) + 2
+    sess.add('lemma/reduced-claim/L_in[A(k)>=0]', 'spec', 'lemma', rng + cdef + [A(k) >= 0], claim_c)
+    sess.add('lemma/reduced-claim/L_in[A(k)<0]', 'spec', 'lemma', rng + cdef + [A(k) < 0], claim_c)
+    sess.add('lemma/reduced-claim/L_out[near-tick-1,A(k)>=0]', 'spec', 'lemma', rng + [left, A(k) >= 0], claim_noc)
+    sess.add('lemma/reduced-claim/L_out[near-tick-T,A(k)>=0]', 'spec', 'lemma', rng + [right, A(k) >= 0], claim_noc)
+    for nm, kc in (('k==1', k == 1), ('k==2', k == 2), ('k==3', k == 3), ('k>=4', k >= 4)):
+        sess.add(f'lemma/reduced-claim/L_out[near-tick-1,A(k)<0,{nm}]', 'spec', 'lemma', rng + [left, A(k) < 0, kc], claim_noc)
+    for nm, kc in (('k==T', k == T), ('k==T-1', k == T - 1), ('k==T-2', k == T - 2), ('k<=T-3', k <= T - 3)):
+        sess.add(f'lemma/reduced-claim/L_out[near-tick-T,A(k)<0,{nm}]', 'spec', 'lemma', rng + [right, A(k) < 0, kc], claim_noc)
+    sess.add('lemma/reduced-claim/case-split-is-exhaustive', 'spec', 'lemma', rng,
+             z3.And(z3.Or(k == 1, k == 2, k == 3, k >= 4), z3.Or(k == T, k == T - 1, k == T - 2, k <= T - 3)))
     inside = z3.And(t > z3.RealVal('3/2'), t < z3.ToReal(T) - z3.RealVal('3/2'))
-    sess.add('lemma/reduced-claim/vertex-inside', 'spec', 'lemma', hyp + [inside],
-             zabs(A(k)) <= zmax(zabs(A(z3.IntVal(1))), zabs(A(T)), zabs(A(c))) + 2)
-    sess.add('lemma/reduced-claim/vertex-outside', 'spec', 'lemma', hyp + [z3.Not(inside)],
-             zabs(A(k)) <= zmax(zabs(A(z3.IntVal(1))), zabs(A(T))) + 2)
-    sess.add('lemma/vertex-tick-is-a-real-tick', 'spec', 'lemma', hyp + [inside], z3.And(c >= 1, c <= T))
-    # canary: the bound +2 is tight; +1/2 must be refuted (the shortfall can reach |jerk|)
-    sess.canary('reduced-claim-with-slack-1/2', hyp + [z3.Not(inside)], zabs(A(k)) <= zmax(zabs(A(z3.IntVal(1))), zabs(A(T))) + z3.RealVal('1/2'))
+    sess.add('lemma/vertex-tick-is-a-real-tick', 'spec', 'lemma', rng + cdef + [inside], z3.And(c >= 1, c <= T))
+    # canaries: the bound +2 is tight (+1/2 must be refuted: the shortfall can reach |jerk|); and beyond 5/2 the end ticks do not suffice
+    sess.canary('reduced-claim-with-slack-1/2', rng + [z3.Or(left, right)], zabs(A(k)) <= zmax(zabs(A(z3.IntVal(1))), zabs(A(T))) + z3.RealVal('1/2'))
+    sess.canary('reduced-claim-with-vertex-up-to-7/2-from-tick-1', rng + [t <= z3.RealVal('7/2')], claim_noc)
     # monotonicity used for the callee precondition: a tick k <= T of a move in the narrowed domain is in the narrowed domain
     jj, kk, TT = z3.Reals('jj kk TT')
     sess.add('lemma/narrowed-domain-monotone', 'spec', 'lemma', [jj >= 0, kk >= 1, kk <= TT], z3.And(jj * kk * kk <= jj * TT * TT, jj * kk <= jj * TT))
@@ -161,12 +178,54 @@ def check_max(sess):
                 oblige_at(ex, q, tag, 'lemma', z3.Implies(z3.And(*nz), tm.z() == t), "code's-t_mid-is-the-vertex-t*")
             local = [c_ for c_ in q.pc if 'q!' not in str(c_)] + list(nz) + cdef + [kz == c for kz in evaluated_c]
             if took_mid:
+                # the vertex tick was evaluated: L_in applies as it stands (c within 1 of t* is the obligation above)
                 claim = zabs(A(k)) <= zmax(zabs(A(z3.IntVal(1))), zabs(A(T)), zabs(A(c))) + 2
             else:
+                # only the end ticks were evaluated: L_out needs the vertex within 3/2 of an end tick.  That must follow from the code's
+                # OWN branch condition on this path (whatever test on t_mid it uses): an equivalent or more generous vertex test still
+                # verifies, a too narrow one is refuted.  The obligation is generalised first -- every real subterm of the path
+                # condition provably equal to t* (the code's t_mid in whatever shape the path condition stores it) becomes one fresh
+                # real, hypotheses still mentioning rate/accel/jerk are dropped -- which only weakens the hypotheses and leaves a
+                # linear query; if the generalised form is not provable the full one is emitted instead.
                 claim = zabs(A(k)) <= zmax(zabs(A(z3.IntVal(1))), zabs(A(T))) + 2
-            ob1 = ex.oblige(q, 'lemma', claim, 'reduced-claim-under-the-code\'s-vertex-test', extra_hyps=local[len(q.pc) - sum(1 for c_ in q.pc if 'q!' in str(c_)):])
-            ob1.hyps = local
-            ob1.func = tag
+                need = z3.Or(t <= z3.RealVal('5/2'), t >= z3.ToReal(T) - z3.RealVal('3/2'))
+                t_abs = z3.Real('t_vertex')
+                pairs = [(t, t_abs), (z3.simplify(t), t_abs)]
+                seen_terms = {}
+
+                def walk(e_):
+                    if e_.get_id() in seen_terms or not z3.is_app(e_):
+                        return
+                    seen_terms[e_.get_id()] = e_
+                    for ch in e_.children():
+                        walk(ch)
+                for c_ in local:
+                    walk(c_)
+                for e_ in seen_terms.values():
+                    if e_.sort() != z3.RealSort() or e_.num_args() == 0 or e_.eq(t):
+                        continue
+                    vs = {str(v) for v in z3.z3util.get_vars(e_)}
+                    if not vs or not vs <= {str(accel), str(jerk)}:
+                        continue
+                    sv = z3.Solver()
+                    sv.set('timeout', 2000)
+                    sv.add(*nz)
+                    sv.add(e_ != t)
+                    if sv.check() == z3.unsat:
+                        pairs.append((e_, t_abs))
+                sub = lambda e_: z3.substitute(e_, *pairs)
+                gone = {str(rate), str(accel), str(jerk)}
+                keep = [c2 for c2 in (sub(c_) for c_ in local) if not ({str(v) for v in z3.z3util.get_vars(c2)} & gone)]
+                sv = z3.Solver()
+                sv.set('timeout', 5000)
+                sv.add(*keep)
+                sv.add(z3.Not(sub(need)))
+                ob1 = ex.oblige(q, 'lemma', need, "code's-vertex-test-not-taken=>vertex-within-3/2-of-an-end-tick")
+                if sv.check() == z3.unsat:
+                    ob1.goal, ob1.hyps = sub(need), keep
+                else:
+                    ob1.hyps = local
+                ob1.func = tag
             facts.append(claim)
         ob = ex.oblige(q, 'ensures', goal, 'within-|jerk|-of-every-tick[lemma-chain]', extra_hyps=facts)
         ob.func = tag
